@@ -78,7 +78,9 @@ func table(cfg fx.Cfg, full bool) []faultSpec {
 	add("(*conn).write/write", "fatal", "traffic", unix.EPIPE, unix.ECONNRESET, unix.ETIMEDOUT)
 	add("(*conn).writev/writev", "fatal", "traffic", unix.EPIPE, unix.ECONNRESET)
 	add("(*conn).open/write", "fatal", "open-reply", unix.ECONNRESET, unix.EPIPE)
-	add(acceptSite, "transient", "connect", unix.ECONNABORTED, unix.EINTR, unix.ECONNRESET)
+	if !cfg.Client {
+		add(acceptSite, "transient", "connect", unix.ECONNABORTED, unix.EINTR, unix.ECONNRESET)
+	}
 	add(addSite, "preopen", "connect", unix.ENOMEM, unix.ENOSPC)
 	add("(*Poller).Delete/epoll_ctl_del", "atclose", "peer-close", unix.ENOENT, unix.ENOMEM)
 	add("(*eventloop).close/close", "atclose", "peer-close", unix.EIO, unix.EINTR)
@@ -306,6 +308,7 @@ func runFault(cs caseSpec) (o outcome) {
 	}
 	vst := &cstate{id: 0, mode: cs.EchoMode, reply: victimReply, closedCh: make(chan struct{})}
 	var victim *echoer
+	victimErr := error(nil)
 	{
 		// the victim's connect may legitimately never reach OnOpen (registration fault)
 		type res struct {
@@ -335,6 +338,7 @@ func runFault(cs caseSpec) (o outcome) {
 		if r.p != nil {
 			victim = &echoer{c: r.p, st: vst, gen: vio.Gen{Key: 31337}, hello: victimReply}
 		}
+		victimErr = r.err
 	}
 	vfd := int(atomic.LoadInt32(&vst.fd))
 	for _, f := range faults {
@@ -448,6 +452,9 @@ func runFault(cs caseSpec) (o outcome) {
 		if n := atomic.LoadInt32(&vst.closes); n != 0 {
 			add("fault-preopen", "the victim was never opened but OnClose ran %d times", n)
 		}
+		if cs.Cfg.Client && victim != nil && victimErr == nil {
+			add("fault-preopen-result", "the registration of the victim failed (%v) but Dial/Enroll handed a connection to the caller", cs.F.Errno)
+		}
 	case fatal:
 		select {
 		case <-vst.closedCh:
@@ -560,6 +567,17 @@ func configs() []fx.Cfg {
 	return out
 }
 
+// clientConfigs: the gnet side is a Client; its connections are dialled (Client.Dial) or enrolled
+// (net.Dial + Client.Enroll) and live on the same event-loops, read/write paths and close path.
+func clientConfigs() []fx.Cfg {
+	return []fx.Cfg{
+		{Net: "tcp4", Client: true, Loops: 2, ReadCap: 4096, WriteCap: 4096},
+		{Net: "tcp4", Client: true, Enroll: true, ET: true, Loops: 2, ReadCap: 4096, WriteCap: 4096},
+		{Net: "unix", Client: true, Enroll: true, Loops: 1, ReadCap: 1024, WriteCap: 1024},
+		{Net: "unix", Client: true, ET: true, Loops: 2, ReadCap: 1024, WriteCap: 1024},
+	}
+}
+
 func finish(st *vstat.Stats, cs caseSpec, o outcome, seenSites map[string]int) {
 	st.Eval()
 	if o.delivered {
@@ -577,8 +595,14 @@ func finish(st *vstat.Stats, cs caseSpec, o outcome, seenSites map[string]int) {
 }
 
 // TestC18Enumerate walks the fault table: every site x errno (quick: first errno) x k x configuration.
-func TestC18Enumerate(t *testing.T) {
-	st := vstat.New("C18.enumerate")
+func TestC18Enumerate(t *testing.T) { enumerate(t, "C18.enumerate", configs()) }
+
+// TestC18Client walks the same table for connections of a Client (no accept sites; a failing
+// registration must come back to Dial/Enroll as an error, never as an opened connection).
+func TestC18Client(t *testing.T) { enumerate(t, "C18.client", clientConfigs()) }
+
+func enumerate(t *testing.T, name string, cfgs []fx.Cfg) {
+	st := vstat.New(name)
 	defer st.Flush()
 	k, n := vstat.Shard()
 	maxK := 2
@@ -588,7 +612,7 @@ func TestC18Enumerate(t *testing.T) {
 	}
 	seenSites := map[string]int{}
 	idx := 0
-	for ci, cfg := range configs() {
+	for ci, cfg := range cfgs {
 		if !full && ci >= 4 && ci%2 == 1 {
 			continue
 		}
@@ -638,7 +662,7 @@ func TestC18Random(t *testing.T) {
 	defer st.Flush()
 	seenSites := map[string]int{}
 	rapid.Check(t, func(t *rapid.T) {
-		cfg := fx.DrawCfg(t, fx.DrawOpt{ServerOnly: true, MaxLoops: 4})
+		cfg := fx.DrawCfg(t, fx.DrawOpt{MaxLoops: 4})
 		cfg.RcvBuf, cfg.SndBuf = 0, 0
 		tab := table(cfg, true)
 		f := rapid.SampledFrom(tab).Draw(t, "fault")
